@@ -43,6 +43,66 @@ Theorem C10_crash_safe_after_recoveries :
 Proof. exact crash_safe_recovered_src. Qed.
 Print Assumptions C10_crash_safe_after_recoveries.
 
+(* Delete with AutoGC and GC: one API call that performs several primitive operations in a
+   row ([steps_seq]): the plain deletes of the target, of its untagged referrers and of the
+   content left dangling (queue order), resp. [Forget live] (drop the digest references
+   of unreachable content, save the index) followed by the plain delete of every blob
+   file outside the live set (directory order).  For EVERY list of primitives (whatever
+   the cascade or the sweep visits, in whatever order), after any history with earlier
+   crashes and for every cut k: the directory found is a crash state of ONE primitive o
+   of the call -- recoverable between the quiescent states before and after o, which are
+   reached from the start of the call by completed primitives -- or the final state.
+   In particular index.json is rewritten before each unlink of the cascade and before
+   the sweep. *)
+Theorem C10_crash_safe_composite :
+  forall (H : list N -> N) (shuffle : nat -> list entry -> list entry),
+    (forall c l e, In e (shuffle c l) <-> In e l) ->
+    forall (h : list hop) (os : list op) (k : nat),
+      let s := runc H shuffle src_inplace src_unlink_first h init in
+      let fsk := crash_seq H shuffle src_inplace src_unlink_first s os k in
+      (exists pre o post,
+         os = pre ++ o :: post /\
+         let sj := run H shuffle src_inplace src_unlink_first pre s in
+         Recoverable H (sfs sj) fsk (sfs (run_op H shuffle src_inplace src_unlink_first sj o))) \/
+      (fsk = sfs (run H shuffle src_inplace src_unlink_first os s) /\
+       layout_ok fsk /\ blob_ok H fsk /\ index_ok fsk).
+Proof. exact crash_safe_composite_src. Qed.
+Print Assumptions C10_crash_safe_composite.
+
+(* ... and relative to the whole call: a Delete-with-AutoGC cascade or a GC (any list of plain
+   deletes, Forget and SaveIndex) only ever removes: whatever the cut, every blob that was
+   there before the call and is there after it is there, and nothing is there that was
+   not there before the call. *)
+Theorem C10_cascade_blobs_between :
+  forall (H : list N -> N) (shuffle : nat -> list entry -> list entry),
+    (forall c l e, In e (shuffle c l) <-> In e l) ->
+    forall (h : list hop) (os : list op) (k : nat),
+      (forall o, In o os -> match o with Delete _ | Forget _ | SaveIndex => True | _ => False end) ->
+      let s := runc H shuffle src_inplace src_unlink_first h init in
+      let fsk := crash_seq H shuffle src_inplace src_unlink_first s os k in
+      let fs1 := sfs (run H shuffle src_inplace src_unlink_first os s) in
+      (forall d, has (sfs s) (FBlob d) -> has fs1 (FBlob d) -> has fsk (FBlob d)) /\
+      (forall d, has fsk (FBlob d) -> has (sfs s) (FBlob d)).
+Proof. exact crash_shrinking_between_src. Qed.
+Print Assumptions C10_cascade_blobs_between.
+
+(* Delete with AutoGC, tag mapping: the cascade deletes the target d and then nodes xs that
+   carry no reference name (the code skips tagged referrers and tagged dangling content).
+   Whatever the cut, after any earlier crashes: the tag mapping read from index.json is
+   the one before the call or the one after it -- although index.json itself is rewritten
+   several times during the cascade. *)
+Theorem C10_cascade_tags_before_or_after :
+  forall (H : list N -> N) (shuffle : nat -> list entry -> list entry),
+    (forall c l e, In e (shuffle c l) <-> In e l) ->
+    forall (h : list hop) (d : N) (xs : list N) (k : nat),
+      let s := runc H shuffle src_inplace src_unlink_first h init in
+      (forall l, read_index (sfs s) = Some l -> forall x r, In x xs -> ~ tag_of l r x) ->
+      let os := Delete d :: map Delete xs in
+      let fsk := crash_seq H shuffle src_inplace src_unlink_first s os k in
+      same_tags fsk (sfs s) \/ same_tags fsk (sfs (run H shuffle src_inplace src_unlink_first os s)).
+Proof. exact cascade_tags_src. Qed.
+Print Assumptions C10_cascade_tags_before_or_after.
+
 (* the tag mapping a reader derives from index.json is the one before or the one after *)
 Theorem C10_tag_mapping_before_or_after :
   forall (H : list N -> N) (shuffle : nat -> list entry -> list entry),
@@ -85,11 +145,38 @@ Theorem C10_no_in_place_write :
 Proof. exact no_in_place_write_src. Qed.
 Print Assumptions C10_no_in_place_write.
 
+(* Initialisation (beyond the property's "initialised store"): the first oci.New on an empty
+   directory is cut anywhere; the directory it leaves never makes a later oci.New fail, and
+   that New completes the layout: valid oci-layout, index.json without manifests, blobs/. *)
+Theorem C10_init_restartable :
+  forall (shuffle : nat -> list entry -> list entry),
+    (forall c l e, In e (shuffle c l) <-> In e l) ->
+    forall k,
+      let fsk := apply (firstn k (new_steps shuffle src_inplace src_layout_inplace empty_fs 0)) empty_fs in
+      let fs2 := apply (new_steps shuffle src_inplace src_layout_inplace fsk 1) fsk in
+      new_okb fsk = true /\
+      layout_okb fs2 = true /\ read_index fs2 = Some [] /\ dirs fs2 DBlobs = true /\
+      forall d, files fs2 (FBlob d) = None.
+Proof. exact init_restartable_src. Qed.
+Print Assumptions C10_init_restartable.
+
+(* oci-layout written in place (the code before the repair): refuted, cut after open(O_TRUNC) *)
+Theorem C10_init_refuted_layout_inplace :
+  forall (shuffle : nat -> list entry -> list entry),
+  exists k, new_okb (apply (firstn k (new_steps shuffle false true empty_fs 0)) empty_fs) = false.
+Proof. exact init_unrestartable_inplace. Qed.
+Print Assumptions C10_init_refuted_layout_inplace.
+
 (* the source orders the proof relies on: temp+rename index write, index before unlink,
-   blob stored before it is tagged, ingest = create temp / copy+verify / chmod, then rename *)
+   blob stored before it is tagged, ingest = create temp / copy+verify / chmod, then rename,
+   GC = rebuild, save index, then sweep *)
 Theorem C10_source_order :
-  src_inplace = false /\ src_unlink_first = false /\ src_push_order_ok = true.
-Proof. exact (conj src_inplace_false (conj src_unlink_first_false src_push_order)). Qed.
+  src_inplace = false /\ src_unlink_first = false /\ src_push_order_ok = true /\ src_gc_order_ok = true /\
+  src_layout_inplace = false.
+Proof.
+  exact (conj src_inplace_false (conj src_unlink_first_false (conj src_push_order
+          (conj src_gc_order src_layout_inplace_false)))).
+Qed.
 Print Assumptions C10_source_order.
 
 (* The code before the repair (os.WriteFile on index.json itself, [inplace = true]):
